@@ -42,7 +42,13 @@ pub fn run_cell(ctx: &Ctx, plan: &LawPlan, min_n: u64) -> Option<LawOutcome> {
             return None;
         }
     };
-    let law = reflaw(cell)?;
+    let law = match reflaw(cell) {
+        Some(l) => l,
+        None => {
+            ctx.class(&format!("no_reference_law:{}", cell.fam.name()), 1);
+            return None;
+        }
+    };
     let seed = hseed(&[ctx.seed, cell.hash64(), 0x1A3]);
     let out = check_law(&LawJob {
         cell,
